@@ -105,13 +105,10 @@ BoOps(chains) ==
   \cup {<<4, 0, l[1], l[2]>> : l \in {m \in BoLists : m[1] # 0}}
   \cup {<<5, a, l[1], l[2]>> : a \in BoOrdered(chains), l \in {m \in BoLists : m[1] # 0}}
 
-\* Level B: one LinkedListNode per ordered block (the node of block b is b).
-\* A list that names a block twice would need two nodes for one block and a
-\* one-shot iterator is exhausted by the duplicate check; the code handles
-\* neither (open finding KF-C20-2), and the Level-B model leaves these
-\* operations out (BoModelled); they are still emitted for the replay.
-BoModelled(op) == op[1] \in 1..3 /\ Cardinality(Range(BoList(op[3], op[4]))) = Len(BoList(op[3], op[4]))
-
+\* Level B: one LinkedListNode per ordered block (the node of block b is b;
+\* a list that names a block twice is refused before any node is made).
+\* _primitive_insert first copies its argument into a tuple, so a one-shot
+\* iterator (codes 4, 5) behaves like a list.
 BoInitB == [ord |-> {}, prev |-> [b \in 1..N |-> 0], nxt |-> [b \in 1..N |-> 0]]
 
 \* LinkedListNode.insert_node_after(self = p, node = n)
@@ -131,9 +128,11 @@ BoInsertLoop(s, prevEntry, L) ==
 BoStepB(s, op) ==
   LET L == BoList(op[3], op[4])
   IN
-  CASE op[1] \in {1, 2} ->
-         IF \E i \in DOMAIN L : L[i] \in s.ord THEN [st |-> s, exc |-> "ValueError"]
-         ELSE [st |-> BoInsertLoop(s, IF op[1] = 2 THEN op[2] ELSE 0, L), exc |-> ""]
+  CASE op[1] \in {1, 2, 4, 5} ->
+         \* for block in insert_blocks: if block in self.__order or block in seen
+         IF \E i \in DOMAIN L : L[i] \in s.ord \/ (\E k \in 1..(i - 1) : L[k] = L[i])
+         THEN [st |-> s, exc |-> "ValueError"]
+         ELSE [st |-> BoInsertLoop(s, IF op[1] \in {2, 5} THEN op[2] ELSE 0, L), exc |-> ""]
     [] op[1] = 3 ->                                                   \* pop + unlink
          LET a == op[2]
              p == s.prev[a]
@@ -440,17 +439,15 @@ Picks(k, s, op) == IF k \in {"is", "re"} /\ op[1] = 4 /\ s # {} THEN s ELSE {0}
 
 BInit(k) == CASE k = "bo" -> BoInitB [] k = "re" -> ReInitB [] OTHER -> 0
 BStep(k, b, op, pick) ==
-  CASE k = "bo" -> IF BoModelled(op) THEN BoStepB(b, op).st ELSE b
+  CASE k = "bo" -> BoStepB(b, op).st
     [] k = "re" -> ReStepB(b, op, pick)
     [] OTHER -> b
-
-Modelled(k, op) == IF k = "bo" THEN BoModelled(op) ELSE TRUE
 
 Init == \E i \in AInits(Machine) :
           /\ st = [a |-> i[2], b |-> BInit(Machine)]
           /\ hist = <<i[1], <<>>>>
 
-Next == \E op \in {o \in AOps(Machine, st.a) : Modelled(Machine, o)} :
+Next == \E op \in AOps(Machine, st.a) :
           \E pick \in Picks(Machine, st.a, op) :
             LET r == AStep(Machine, st.a, op, pick)
             IN  /\ st' = [a |-> r.st, b |-> BStep(Machine, st.b, op, pick)]
